@@ -143,6 +143,10 @@ static void run_string(const char *s, const struct combo *cb, struct res *r, uin
     /* automatic */
     polyseed_data *d = NULL; const polyseed_lang *lo = NULL; env_clear_log(); E.fail_at = cb->fail ? 0 : -1;
     int A = polyseed_decode(copy, (polyseed_coin)cb->coin, &lo, &d); E.fail_at = -1; r->calls++;
+    if ((id & 3) == 1) {   /* lang_out is optional: the same call with NULL must give the same status */
+        polyseed_data *d2 = NULL; env_clear_log(); E.fail_at = cb->fail ? 0 : -1; int A2 = polyseed_decode(copy, (polyseed_coin)cb->coin, NULL, &d2); E.fail_at = -1; r->calls++; if (A2 == POLYSEED_OK) polyseed_free(d2);
+        if (A2 != A) { res_viol(r, "c09:null-lang-out", rep, "polyseed_decode with lang_out = NULL returned %d, with a pointer %d", A2, A); return; }
+    }
     uint8_t AS[32]; memset(AS, 0, 32); if (A == POLYSEED_OK) { polyseed_store(d, AS); polyseed_free(d); }
     if (A >= 0 && A < 8) r->cls[A]++;
     r->digest ^= mix64(id, (uint64_t)A);
